@@ -486,6 +486,9 @@ class HostInterp:
                     modname, attr = next(iter(srcs))
                     if modname in ("itertools", "functools", "math", "re", "textwrap", "copy", "operator") and attr and not attr.startswith("_"):
                         return getattr(__import__(modname), attr)
+            if _od.PACKAGE is not None and e.id in ("typing", "types", "inspect", "math", "re", "itertools", "functools", "textwrap", "copy", "operator") and any(imp[0] == "extmod" and imp[1] == e.id for m_ in _od.PACKAGE.modules.values() for nm, imp in m_.imports.items() if nm == e.id):
+                # a standard-library module some module of the package imports under its own name
+                return __import__(e.id)
             pf = _od._package_function(e.id)
             if pf is not None and not pf.node.decorator_list:
                 # a top-level function of another module of the package (a class's methods run in their own module)
